@@ -40,6 +40,7 @@ type startState struct {
 	Prepare func(sandbox string) string
 	IsFile  bool
 	Missing bool
+	Symlink bool
 }
 
 var startStates = []startState{
@@ -47,6 +48,15 @@ var startStates = []startState{
 	{Name: "directory-missing", Prepare: func(s string) string { return filepath.Join(s, "store") }, Missing: true},
 	{Name: "nested-directory-missing", Prepare: func(s string) string { return filepath.Join(s, "n1", "n2", "store") }, Missing: true},
 	{Name: "path-is-a-file", Prepare: func(s string) string { f := filepath.Join(s, "store"); _ = os.WriteFile(f, []byte("i am a file"), 0o644); return f }, IsFile: true},
+	{Name: "directory-name-with-spaces-and-unicode", Prepare: func(s string) string { d := filepath.Join(s, "st ore é✓"); _ = os.MkdirAll(d, 0o755); return d }},
+	{Name: "symlink-to-directory", Prepare: func(s string) string {
+		real := filepath.Join(s, "real")
+		_ = os.MkdirAll(real, 0o755)
+		l := filepath.Join(s, "store")
+		_ = os.Symlink(real, l)
+		return l
+	}, Symlink: true},
+	{Name: "path-with-dot-segments", Prepare: func(s string) string { d := filepath.Join(s, "store"); _ = os.MkdirAll(d, 0o755); return s + "/store/../store/." }},
 }
 
 // world is the reference model.
@@ -83,6 +93,7 @@ func applyOp(t *engine.T, st startState, sandbox, dir string, w *world, o op, fa
 					continue
 				}
 				cp := filepath.Clean(p)
+				dir := filepath.Clean(dir)
 				if cp == dir || strings.HasPrefix(cp, dir+string(os.PathSeparator)) || strings.HasPrefix(dir, cp+string(os.PathSeparator)) && s.Kind == "mkdir" {
 					continue
 				}
@@ -100,7 +111,10 @@ func applyOp(t *engine.T, st startState, sandbox, dir string, w *world, o op, fa
 	}
 	// confinement: everything new lies under the configured directory
 	after := listTree(sandbox)
-	rel, _ := filepath.Rel(sandbox, dir)
+	rel, _ := filepath.Rel(sandbox, filepath.Clean(dir))
+	if st.Symlink {
+		rel = "real"
+	}
 	old := map[string]bool{}
 	for _, p := range before {
 		old[p] = true
@@ -263,6 +277,9 @@ func RunC19(c *engine.Ctx) {
 			alpha = opsAlphabet([]string{"d1", "d2"}, idAlphabet)
 		case si == 0:
 			alpha = opsAlphabet(docsFull, idAlphabet)
+		case si >= 4:
+			alpha = opsAlphabet([]string{"d1", "d2"}, []string{"a", "../x", ""})
+			d = 2
 		default:
 			alpha = opsAlphabet([]string{"d1", "meta"}, []string{"a", "../x", "é✓", ""})
 			if !c.Thorough() {
